@@ -100,7 +100,7 @@ func init() {
 		Assumptions: []string{"runs as root on a file system with mknod, user.* and trusted.* xattrs", "the tree is not modified during the walk"},
 		Cases: func(tier string) int {
 			if tier == "thorough" {
-				return 100000
+				return 600000
 			}
 			return 3000
 		},
